@@ -431,6 +431,15 @@ type C07Profile struct {
 	More  []string `json:"more"`  // values appended with +=
 	Body  []string `json:"body"`  // rule lines (2-space indented)
 	Flags string   `json:"flags"` // header flags
+	Entry string   `json:"entry,omitempty"` // access of the entry point rule ("" = mr)
+}
+
+func (p C07Profile) entryLine() string {
+	e := p.Entry
+	if e == "" {
+		e = "mr"
+	}
+	return "  @{exec_path} " + e + ","
 }
 
 func (p C07Profile) Text() string {
@@ -444,7 +453,7 @@ func (p C07Profile) Text() string {
 	if p.Flags != "" {
 		fl = " flags=(" + p.Flags + ")"
 	}
-	fmt.Fprintf(&b, "profile %s @{exec_path}%s {\n  include <abstractions/base>\n\n  @{exec_path} mr,\n", p.Name, fl)
+	fmt.Fprintf(&b, "profile %s @{exec_path}%s {\n  include <abstractions/base>\n\n%s\n", p.Name, fl, p.entryLine())
 	for _, l := range p.Body {
 		b.WriteString(l + "\n")
 	}
@@ -488,6 +497,7 @@ func genC07Set(t *rapid.T, kind string) C07Set {
 			p.Body = append(p.Body, pick(t, "bodyline", c07BodyLines))
 		}
 		p.Flags = maybe(t, "flags", []string{"complain", "attach_disconnected"})
+		p.Entry = pick(t, "entry", []string{"", "", "mrix", "r", "rix", "mrix"})
 		s.Profiles = append(s.Profiles, p)
 		s.Args = append(s.Args, p.Name)
 	}
@@ -670,7 +680,7 @@ var reExecFileRule = regexp.MustCompile(`^(?:(?:audit|deny|allow|owner)\s+)*(?:"
 // lines dropped.
 func modelStackBody(p C07Profile, keepX bool) []string {
 	var res []string
-	lines := []string{"  include <abstractions/base>", "", "  @{exec_path} mr,"}
+	lines := []string{"  include <abstractions/base>", "", p.entryLine()}
 	lines = append(lines, p.Body...)
 	lines = append(lines, "", "  include if exists <local/"+p.Name+">") // a rule of the stacked profile like any other
 	for _, raw := range lines {
